@@ -30,7 +30,7 @@ CONSTANTS
 %(check)s
 CHECK_DEADLOCK FALSE
 """
-INVS = "Inv_Covered Inv_NoTwin Inv_StaleGone Inv_Foreign Inv_Idempotent Inv_Converges Inv_Accounting Inv_FoldAgrees"
+INVS = "Inv_Covered Inv_KeepsCovered Inv_NoTwin Inv_StaleGone Inv_Foreign Inv_Idempotent Inv_Converges Inv_Accounting Inv_FoldAgrees"
 ALLP = '"P1", "P2", "P3", "P4"'
 
 
